@@ -204,3 +204,17 @@ prop("C09", shards=16, level="fault_enumeration",
      level_note="Trusted: harness/iox stream shapes, the reference writers. PluginMessageData (reads to EOF by design) is exempt from "
                 "sentinel and read-fault checks. Writers that report a short write without an error violate io.Writer and are not "
                 "modelled.")
+
+prop("C10", shards=16,
+     technique="rapid property-based testing of call histories against a byte-at-a-time AES-CFB8 reference; encrypted Conn pairs over an in-memory duplex",
+     rule="Key 16/24/32 bytes, IV 16, message up to 4096 bytes, both directions; a sequence of 1..12 XORKeyStream calls with lengths "
+          "from {0,1,2,15,16,17,31,32,33,34,47,48,49,64,100,1000} and uniform 0..200, each call in place / into a disjoint dst of "
+          "equal length / into a longer dst (partial overlap is excluded: cipher.Stream forbids it); one in four histories runs "
+          "through cipher.StreamReader over a fragmenting source. Oracle: concatenated output == reference (shift register, one "
+          "Block.Encrypt per byte); src untouched, nothing written beyond len(src); the inverse stream under an independent split "
+          "plan returns the message. C10Conn: two net.Conn with SetCipher on both ends, thresholds {-1,0,64,256}, 1..40 packets "
+          "with sizes around the threshold, fragmented socket reads, one or both directions: every packet intact and in order. "
+          "Non-trivial: history mixes the optimised path (> 32 bytes, disjoint buffers) with the ring-buffer path, or enters the "
+          "optimised path with the ring mid-way. Distinct: hash of the JSON case.",
+     level_text="Sampled keys and call histories, dense around one and two cipher blocks.",
+     level_note="Trusted: crypto/aes, harness/ref/cfb8 (25 lines; anchored by the NIST CFB8 vectors in net/CFB8/cfb8_test.go).")
